@@ -27,6 +27,13 @@ fn inputs(rng: &mut Rng, tier: &str) -> Vec<(String, Vec<u8>)> {
     let mut m = rng.bytes(big / 2);
     m.extend(vec![7u8; big / 2]);
     v.push(("multi_megabyte".into(), m));
+    // highly compressible and several megabytes long (expansion ratios far beyond deflate's 1032:1 for zstd and brotli)
+    v.push(("zeros_beyond_3_mib".into(), {
+        let mut z = vec![0u8; 3_400_001];
+        z[1_700_000] = 1;
+        z[3_400_000] = 2;
+        z
+    }));
     for n in 2..=6 {
         v.push((format!("small_{n}"), rng.bytes(n)));
     }
@@ -165,6 +172,11 @@ pub fn drive(seed: u64, tier: &str, workdir: &str, out: &mut Out) {
                 // streaming readers over a fragmenting stream (a few schedules; all streams for small data)
                 if si < 3 || data.len() <= 6 {
                     for (sched, is_async) in [(vec![1usize], false), (vec![3, 1, 7], true), (vec![4096], false), (vec![2], true)] {
+                        // byte-by-byte transfer of the multi-megabyte zeros input costs a minute and adds nothing the
+                        // 2.5 MB input does not already cover
+                        if name == "zeros_beyond_3_mib" && sched[0] < 3 {
+                            continue;
+                        }
                         let ctl = new_ctl();
                         ctl.lock().expect("ctl").sched = sched.clone();
                         if is_async {
